@@ -133,11 +133,12 @@ def compare(kit, struct_names, res, nat):
                     d = discs[vs.index(x)] if discs else vs.index(x)
                     if d == int(y):
                         return True
-        if re.match(r"^-?\d+\.\d*", x) or re.match(r"^-?\d+\.\d*", y) or "<" in y:
+        xs, ys = x.strip('"'), y.strip('"')
+        if re.match(r"^-?\d+(\.\d*)?(e-?\d+)?$", xs) or "<" in ys:
             try:
-                return float(x) == float(y)
+                return float(xs) == float(ys)
             except ValueError:
-                return "<" in y
+                return "<" in ys        # float values are declined: the engine carries an opaque float
         return False
     if len(a) != len(b) or not all(same(x, y) for x, y in zip(a, b)):
         k = next((i for i, (x, y) in enumerate(zip(a, b)) if not same(x, y)), min(len(a), len(b)))
